@@ -249,7 +249,7 @@ func (x *c10ctx) checkSliceSite(f *ssa.Function, s *ssa.Slice, rule string) {
 		vt := x.tb.Of(v)
 		nonNeg := it.Lo != nil && it.Lo.Sign() >= 0
 		// guarded: len(x) >= v
-		if nonNeg && x.guardHolds(b, lenT, token.GEQ, vt.String()) {
+		if nonNeg && (x.guardHolds(b, lenT, token.GEQ, vt.String()) || x.guardHolds(b, lenT, token.GTR, vt.String())) {
 			return true, ""
 		}
 		// v = len(x) - w with 0 <= w <= len(x)
